@@ -99,9 +99,24 @@ func verifEqBytesss(a, b [][][]byte) bool {
 
 func VerifCheck_compat() {
 	n := verifParamInt("n")
-	b := make([]byte, n)
-	for i := range b {
-		b[i] = verifByte("b" + strconv.Itoa(i))
+	var b []byte
+	if ra := verifParam("runealphabet"); ra != "" {
+		// runes of different UTF-8 widths from a small alphabet, each position a solver variable
+		tab := []rune(ra)
+		ix := ""
+		for i := range tab {
+			ix += string(rune(i + 1))
+		}
+		rs := make([]rune, n)
+		for i := range rs {
+			rs[i] = tab[int(verifByteIn("r"+strconv.Itoa(i), ix))-1]
+		}
+		b = []byte(string(rs))
+	} else {
+		b = make([]byte, n)
+		for i := range b {
+			b[i] = verifByte("b" + strconv.Itoa(i))
+		}
 	}
 	s := string(b)
 	a, g := verifA, verifG
